@@ -15,6 +15,23 @@ def short(path, n=2):
 
 
 def strip_generics(s):
+    if s.startswith("<"):
+        # <Type as Trait>::item — keep the qualified-self form, strip generics inside
+        depth = 0
+        for i, ch in enumerate(s):
+            if ch == "<":
+                depth += 1
+            elif ch == ">":
+                depth -= 1
+                if depth == 0:
+                    inner = s[1:i]
+                    parts = inner.split(" as ")
+                    return "<" + " as ".join(_strip(p) for p in parts) + ">" + _strip(s[i + 1:])
+        return s
+    return _strip(s)
+
+
+def _strip(s):
     out, depth = [], 0
     for ch in s:
         if ch == "<":
